@@ -37,3 +37,23 @@ Example C08_nonvacuous :
   cell_view [0; 0; 0; 0] 0 7 0 = None /\                    (* zero TIMESTAMP: a fresh copy, not a view *)
   cell_view [5; 0] 0 254 (247 * 256 + 1) = None.            (* ENUM: decimal text in a new buffer *)
 Proof. repeat split; vm_compute; reflexivity. Qed.
+
+(* ---------------------------------------------------------------------------------------------------------------
+   Source pins.  The model functions used above are a hand-written reading of these Go functions (they have closures,
+   channels, interfaces or maps, which the translator gotrans does not accept).  gosync regenerates their normalised
+   text (logging calls and comments removed) into gen/Source.v on every run; it must equal the committed snapshot
+   Spec/SourceSnapshot.v the models were written and validated against.  When one of them is edited the Example
+   naming it fails, the check runs the thorough harness in search of a failing input, and reports the property as no
+   longer shown to hold (with the input, or no-failing-input-found). *)
+From GB Require Proofs.SourcePins Spec.SourceSnapshot.
+From GBGen Require Source.
+Example C08_pin_readBinlogEvent : Source.src_readBinlogEvent = SourceSnapshot.src_readBinlogEvent.
+Proof. exact SourcePins.pin_readBinlogEvent. Qed.
+Example C08_pin_parseEvents : Source.src_parseEvents = SourceSnapshot.src_parseEvents.
+Proof. exact SourcePins.pin_parseEvents. Qed.
+Example C08_pin_getValuesFromRow : Source.src_getValuesFromRow = SourceSnapshot.src_getValuesFromRow.
+Proof. exact SourcePins.pin_getValuesFromRow. Qed.
+Example C08_pin_getIdentifiesFromRow : Source.src_getIdentifiesFromRow = SourceSnapshot.src_getIdentifiesFromRow.
+Proof. exact SourcePins.pin_getIdentifiesFromRow. Qed.
+Example C08_pin_newColumnData : Source.src_newColumnData = SourceSnapshot.src_newColumnData.
+Proof. exact SourcePins.pin_newColumnData. Qed.
